@@ -57,6 +57,21 @@ pub trait Calc: AbsVal + 'static {
     fn show(&self) -> String;
     /// registers are 1-based in events
     fn apply(regs: &[Self], ev: &Ev) -> Result<Out<Self>, String>;
+    /// FromPrimitive entry point `name` on sign * 2^e + o: (what the type returns, what the scalar
+    /// type F returns for the same entry point, widened to f64); None: unknown entry point
+    fn from_prim(name: &str, sign: i32, e: u32, o: i64) -> Option<(Option<Self>, Option<f64>)>;
+    /// FloatConst constant `name`: (the type's constant, F's constant widened to f64)
+    fn float_const(name: &str) -> Option<(Self, f64)>;
+}
+
+pub fn prim_signed(sign: i32, e: u32, o: i64) -> i128 {
+    let p = if e >= 127 { i128::MIN } else { 1i128 << e };
+    // -2^127 is representable, +2^127 - 1 is reached through the wrapping subtraction
+    if sign < 0 { p.wrapping_neg().wrapping_add(o as i128) } else { p.wrapping_add(o as i128) }
+}
+pub fn prim_unsigned(e: u32, o: i64) -> u128 {
+    let p = if e >= 128 { 0u128 } else { 1u128 << e };
+    p.wrapping_add(o as i128 as u128)
 }
 
 #[macro_export]
@@ -83,6 +98,46 @@ macro_rules! impl_calc {
             }
             fn show(&self) -> String {
                 format!("{}", self)
+            }
+            fn from_prim(name: &str, sign: i32, e: u32, o: i64) -> Option<(Option<Self>, Option<f64>)> {
+                use num_traits::FromPrimitive as FP;
+                type D = $T;
+                let i = $crate::calc::prim_signed(sign, e, o);
+                let u = $crate::calc::prim_unsigned(e, o);
+                let fl = (sign as f64) * (e as f64).exp2() + (o as f64) + 0.3;
+                let w = |x: Option<$F>| x.map(|f| f as f64);
+                Some(match name {
+                    "from_isize" => (<D as FP>::from_isize(i as isize), w(<$F as FP>::from_isize(i as isize))),
+                    "from_i8" => (<D as FP>::from_i8(i as i8), w(<$F as FP>::from_i8(i as i8))),
+                    "from_i16" => (<D as FP>::from_i16(i as i16), w(<$F as FP>::from_i16(i as i16))),
+                    "from_i32" => (<D as FP>::from_i32(i as i32), w(<$F as FP>::from_i32(i as i32))),
+                    "from_i64" => (<D as FP>::from_i64(i as i64), w(<$F as FP>::from_i64(i as i64))),
+                    "from_i128" => (<D as FP>::from_i128(i), w(<$F as FP>::from_i128(i))),
+                    "from_usize" => (<D as FP>::from_usize(u as usize), w(<$F as FP>::from_usize(u as usize))),
+                    "from_u8" => (<D as FP>::from_u8(u as u8), w(<$F as FP>::from_u8(u as u8))),
+                    "from_u16" => (<D as FP>::from_u16(u as u16), w(<$F as FP>::from_u16(u as u16))),
+                    "from_u32" => (<D as FP>::from_u32(u as u32), w(<$F as FP>::from_u32(u as u32))),
+                    "from_u64" => (<D as FP>::from_u64(u as u64), w(<$F as FP>::from_u64(u as u64))),
+                    "from_u128" => (<D as FP>::from_u128(u), w(<$F as FP>::from_u128(u))),
+                    "from_f32" => (<D as FP>::from_f32(fl as f32), w(<$F as FP>::from_f32(fl as f32))),
+                    "from_f64" => (<D as FP>::from_f64(fl), w(<$F as FP>::from_f64(fl))),
+                    _ => return None,
+                })
+            }
+            fn float_const(name: &str) -> Option<(Self, f64)> {
+                use num_traits::FloatConst as FC;
+                type D = $T;
+                macro_rules! fc {
+                    ($c:ident) => { (<D as FC>::$c(), <$F as FC>::$c() as f64) };
+                }
+                Some(match name {
+                    "E" => fc!(E), "FRAC_1_PI" => fc!(FRAC_1_PI), "FRAC_1_SQRT_2" => fc!(FRAC_1_SQRT_2),
+                    "FRAC_2_PI" => fc!(FRAC_2_PI), "FRAC_2_SQRT_PI" => fc!(FRAC_2_SQRT_PI), "FRAC_PI_2" => fc!(FRAC_PI_2),
+                    "FRAC_PI_3" => fc!(FRAC_PI_3), "FRAC_PI_4" => fc!(FRAC_PI_4), "FRAC_PI_6" => fc!(FRAC_PI_6),
+                    "FRAC_PI_8" => fc!(FRAC_PI_8), "LN_10" => fc!(LN_10), "LN_2" => fc!(LN_2), "LOG10_E" => fc!(LOG10_E),
+                    "LOG2_E" => fc!(LOG2_E), "PI" => fc!(PI), "SQRT_2" => fc!(SQRT_2),
+                    _ => return None,
+                })
             }
             #[allow(clippy::redundant_clone)]
             fn apply(regs: &[Self], ev: &Ev) -> Result<Out<Self>, String> {
